@@ -15,4 +15,5 @@ CONSTANTS
   Dev_RemovedForStaged = TRUE
   Dev_EnableErrorIgnored = FALSE
 INVARIANTS EventsOnce
+VIEW MCView
 CHECK_DEADLOCK FALSE
